@@ -396,6 +396,9 @@ func (g *G) call(op string, serial uint32) callSpec {
 	case "SetTimeProfile":
 		from, pf := g.date(!g.inDomain)
 		to, pt := g.date(!g.inDomain)
+		if g.r.Intn(5) == 0 {
+			to, pt = from, pf // a single-day profile
+		}
 		wd, pw := g.weekdays()
 		segs := types.Segments{}
 		ps := []any{}
@@ -471,6 +474,9 @@ func (g *G) call(op string, serial uint32) callSpec {
 	case "AddTask":
 		from, pf := g.date(true)
 		to, pt := g.date(true)
+		if g.r.Intn(4) == 0 {
+			to, pt = from, pf // a single day (a pair of values that are each unremarkable alone)
+		}
 		wd, pw := g.weekdays()
 		start, ps := g.hhmm()
 		tt := int(g.u8())
@@ -481,6 +487,19 @@ func (g *G) call(op string, serial uint32) callSpec {
 		task := types.Task{Task: types.TaskType(tt), Door: door, From: from, To: to, Weekdays: wd, Start: start, Cards: cards}
 		a["task"] = M{"task": tt, "door": int(door), "from": pf, "to": pt, "weekdays": pw, "start": ps, "cards": int(cards)}
 		f = func(u uhppote.IUHPPOTE) (any, error) { return u.AddTask(serial, task) }
+		reproj = func() M {
+			// the weekday map the caller still holds, projected again
+			pw2 := []any{}
+			for d := 0; d < 7; d++ {
+				if v, ok := task.Weekdays[time.Weekday(d)]; ok {
+					pw2 = append(pw2, []any{d, v})
+				}
+			}
+			if len(task.Weekdays) != len(pw2) {
+				pw2 = append(pw2, []any{-1, false}) // (same shape as an entry)
+			}
+			return M{"serial": u32(serial), "task": M{"task": tt, "door": int(door), "from": pf, "to": pt, "weekdays": pw2, "start": ps, "cards": int(cards)}}
+		}
 	case "RefreshTaskList":
 		f = func(u uhppote.IUHPPOTE) (any, error) { return u.RefreshTaskList(serial) }
 	case "RecordSpecialEvents":
